@@ -26,6 +26,8 @@ type Interpreter struct {
 
 type Module struct {
 	scopes []map[string]*value.Value
+	// the root scope of the module (its globals, functions and imports)
+	root map[string]*value.Value
 	events map[string]value.ValueFunction
 }
 
